@@ -70,6 +70,7 @@ class File:
         self.impls = []      # (trait or None, type name, {fn name: Fn}, {assoc const/type name: tokens})
         self.impl_types = [] # parallel to impls: {associated type name: type tokens}
         self.types = {}      # `type X = …;` aliases: name -> type tokens
+        self.traits = {}     # trait name -> File of its items (default methods)
         self.fns = {}
 
 def skip_attrs(toks, i):
@@ -144,6 +145,7 @@ def parse_fn(toks, i):
     pc = match_close(toks, j)
     params = []
     for p in split_top(toks[j + 1:pc]):
+        p = [t for t in p if t[0] != "life"]
         txt = [t[1] for t in p]
         if txt in (["self"], ["mut", "self"]):
             params.append(("self", "value"))
@@ -279,7 +281,14 @@ def parse_items(toks, f=None):
             j = i
             while toks[j][1] != "{":
                 j += 1
-            i = match_close(toks, j) + 1
+            c = match_close(toks, j)
+            if t == "trait" and toks[i + 1][0] == "id":
+                # default methods of a trait (rand_core's SeedableRng): kept for the translator, never an error here
+                try:
+                    f.traits[toks[i + 1][1]] = parse_items(toks[j + 1:c])
+                except (Unsupported, AssertionError, IndexError):
+                    pass
+            i = c + 1
         elif t == "impl":
             j = i + 1
             if toks[j][1] == "<":
@@ -289,8 +298,10 @@ def parse_items(toks, f=None):
                         depth += 1
                     elif toks[j][1] == ">":
                         depth -= 1
+                    elif toks[j][1] == ">>":
+                        depth -= 2
                     j += 1
-                    if depth == 0:
+                    if depth <= 0:
                         break
             hdr = []
             while toks[j][1] != "{":
@@ -649,7 +660,27 @@ class Parser:
     def parse_if(self):
         self.eat("if")
         if self.peek() == "let":
-            raise Unsupported("if let")
+            # `if let Some(x) = e { … } else { … }`: only this pattern shape is kept (("iflet", ctor, var, e, then, else))
+            self.eat()
+            ctor = self.eat()
+            if ctor not in ("Some", "Ok") or self.peek() != "(":
+                raise Unsupported("if let")
+            self.eat("(")
+            if self.peek() == "mut":
+                self.eat()
+            var = self.eat()
+            self.eat(")")
+            self.eat("=")
+            e = self.parse_expr(nostruct=True)
+            th = self.parse_braced()
+            el = None
+            if self.peek() == "else":
+                self.eat()
+                if self.peek() == "if":
+                    el = ([], self.parse_if())
+                else:
+                    el = self.parse_braced()
+            return ("iflet", ctor, var, e, th, el)
         c = self.parse_expr(nostruct=True)
         th = self.parse_braced()
         el = None
